@@ -41,7 +41,7 @@ theorem appendAt_appendAt (st : MState) (idx : Nat) (a b : List Val) (hl : idx <
 
 theorem wf_appendAt (d : MsgD) (st : MState) (idx : Nat) (f : FieldD) (es : List Val)
     (hf : d.fields[idx]? = some f) (hr : f.repeated = true) (hw : WfState d st) : WfState d (appendAt st idx es) :=
-  wf_setAt d st idx f _ hf hw (slotOk_list f _ hr)
+  wf_setAt d st idx f _ hf hw (repOk_list f _ hr)
 
 /-- **a record of a repeated scalar field appends its elements and does nothing else** -/
 theorem applyField_repeated (S : Schema) (rec : Loader) (d : MsgD) (st : MState) (pf : PField) (idx : Nat) (f : FieldD)
@@ -152,7 +152,7 @@ theorem applyField_singular (S : Schema) (rec : Loader) (d : MsgD) (st st' : MSt
     rw [hc] at hok
     have hm' : (f.ty == PType.map) = false := by simpa using hm
     have hmsg' : (f.ty == PType.message) = false := by simpa using hmsg
-    simp [slotOk, hm', hmsg', hrep, isListVal] at hok
+    simp [repOk, hm', hmsg', hrep, isListVal] at hok
   · rw [e, setAttr_slots_getD S d.fields _ idx v f hf idx]
     simp [hl1, scalarVal_stored S v hsc]
 
